@@ -40,6 +40,28 @@ fold256 = RecFunction('fold256', I, S, I)
 RecAddDefinition(fold256, [_a, _s], If(Length(_s) <= 0, _a,
                                        fold256(256 * _a + _s[0], z3.Extract(_s, IntVal(1), Length(_s) - 1))))
 
+# segments of exactly m elements (the last one shorter), each passed through an (uninterpreted) per-segment encoding,
+# concatenated:  upto(s, p, m) = encodings of the segments s[0:m], s[m:2m], ... that start before p   (X.690 8.7.3 / 9.2)
+enc_chunk = Function('enc_chunk', S, S)
+_pos = Int('_pos')
+_m = Int('_m')
+
+
+def py_slice(z, lo, hi):
+    """python z[lo:hi] for 0 <= lo <= hi: the very term the executor builds for a slice"""
+    n = Length(z)
+    lo_c = If(lo > n, n, lo)
+    hi_c = If(hi > n, n, hi)
+    return z3.Extract(z, lo_c, If(hi_c > lo_c, hi_c - lo_c, IntVal(0)))
+
+
+upto = RecFunction('segments_upto', S, I, I, S)
+RecAddDefinition(upto, [_s, _pos, _m], If(z3.Or(_pos <= 0, _m <= 0), Empty(S),
+                                          Concat(upto(_s, _pos - _m, _m), enc_chunk(py_slice(_s, _pos - _m, _pos)))))
+multiple = RecFunction('multiple_of', I, I, z3.BoolSort())
+RecAddDefinition(multiple, [_pos, _m], If(_pos == 0, z3.BoolVal(True), If(z3.Or(_pos < 0, _m <= 0), z3.BoolVal(False),
+                                                                             multiple(_pos - _m, _m))))
+
 # big-endian value of the n elements of s starting at lo (no sub-sequence terms: friendlier to the solver)
 _lo = Int('_lo')
 _n = Int('_n')
@@ -60,6 +82,48 @@ nonneg = Function('nonneg', S, z3.BoolSort())
 # bit_length: uninterpreted + the defining inequalities (CPython docs: for nonzero x,
 # 2**(k-1) <= abs(x) < 2**k), instantiated per use (A-BUILTIN)
 bit_length_f = Function('bit_length', I, I)
+
+
+def _flatten(t, sign, terms, const):
+    if z3.is_int_value(t):
+        const[0] += sign * t.as_long()
+    elif z3.is_add(t):
+        for c in t.children():
+            _flatten(c, sign, terms, const)
+    elif z3.is_sub(t) and len(t.children()) == 2:
+        _flatten(t.children()[0], sign, terms, const)
+        _flatten(t.children()[1], -sign, terms, const)
+    else:
+        terms.append((sign, t))
+
+
+def _diff(hi, lo):
+    """hi - lo with common summands cancelled *structurally* (z3.simplify would rewrite element reads into
+    nth_i/nth_u case splits that no longer match the terms produced by the code)"""
+    if isinstance(hi, int) and isinstance(lo, int):
+        return IntVal(hi - lo)
+    hi = hi if z3.is_expr(hi) else IntVal(hi)
+    lo = lo if z3.is_expr(lo) else IntVal(lo)
+    terms, const = [], [0]
+    _flatten(hi, 1, terms, const)
+    _flatten(lo, -1, terms, const)
+    rest = []
+    for sg, t in terms:
+        for k, (sg2, t2) in enumerate(rest):
+            if sg2 == -sg and t2.eq(t):
+                rest.pop(k)
+                break
+        else:
+            rest.append((sg, t))
+    out = None
+    for sg, t in rest:
+        if out is None:
+            out = t if sg > 0 else -t
+        else:
+            out = out + t if sg > 0 else out - t
+    if out is None:
+        return IntVal(const[0])
+    return out + const[0] if const[0] else out
 
 
 def any_(z):
@@ -190,7 +254,7 @@ class XNS:
         """s[lo:hi] for 0 <= lo <= hi (z3 extract; out-of-range clamps like python)"""
         z = z_of(s)
         lo, hi = toint(lo), toint(hi)
-        n = z3.simplify(hi - lo)
+        n = _diff(hi, lo)
         if concrete(n) is None and not ex.feasible(n < 0):
             return any_(z3.Extract(z, lo, n))        # hi >= lo on this path: plain extract (helps the solver)
         return any_(z3.Extract(z, lo, If(n > 0, n, IntVal(0))))
@@ -202,6 +266,28 @@ class XNS:
         s, m, e = toint(s), toint(m), toint(e)
         return Implies(And(0 <= s, s <= m, m <= e, e <= Length(z)),
                        Concat(z3.Extract(z, s, m - s), z3.Extract(z, m, e - m)) == z3.Extract(z, s, e - s))
+
+    @staticmethod
+    def enc_chunk(ex, s):
+        """the (unspecified here) encoding of one segment: whatever encodeFun returns for it"""
+        return any_(enc_chunk(z_of(s)))
+
+    @staticmethod
+    def segments_upto(ex, s, pos, m):
+        """encodings of the segments s[0:m], s[m:2m], ... that start before pos, concatenated"""
+        return any_(upto(z_of(s), toint(pos), toint(m)))
+
+    @staticmethod
+    def multiple_of(ex, pos, m):
+        return multiple(toint(pos), toint(m))
+
+    @staticmethod
+    def lemma_segments_step(ex, s, pos, m):
+        """definitions of segments_upto and multiple_of unfolded once at pos + m"""
+        z, pos, m = z_of(s), toint(pos), toint(m)
+        return Implies(And(pos >= 0, m > 0),
+                       And(upto(z, pos + m, m) == Concat(upto(z, pos, m), enc_chunk(py_slice(z, pos, pos + m))),
+                           multiple(pos + m, m) == multiple(pos, m)))
 
     @staticmethod
     def lemma_fold256_step(ex, a, s):
